@@ -9,6 +9,10 @@
          table in range the checked detector never returns Panic and computes what the model computes;
          the range invariant (min timestamp <= max timestamp, bounded start / last reception time) is
          preserved by new / update / merge and by whole runs;
+     (A') the parsers of control-message bodies (src/dlt/control_msgs.rs), modelled byte-exactly in
+         Crash/ControlMsgs.v with every get(..).unwrap(), slice, index, Option::unwrap, usize + and - as a
+         possible Panic: for ALL body byte strings, both byte orders and all status values they return without
+         Panic; and on well-formed bodies GET_LOG_INFO / GET_SOFTWARE_VERSION parsing gives back what was encoded;
      (B) the no-panic / in-bounds theorems of the other properties' developments, re-exported below
          under C03_reexport_* names (framing parsers and reader loop C01, writer C02, argument iterator C18,
          time sort C10, file-transfer plugin incl. its allocation bound C17, remote dispatcher C15,
@@ -23,6 +27,7 @@
    gives at most 2^32 * 10^6 + 2^32 < 2^53, the repaired text converters at most i64::MAX + 8.3e18). *)
 From Coq Require Import List NArith Bool Lia.
 From AdltV Require Import Base.Res Base.MachInt Lifecycle.Model Crash.LifecycleChk Crash.LifecycleChkProofs.
+From AdltV Require Crash.ControlMsgs Crash.ControlMsgsProofs.
 From AdltV Require Properties.C01 Properties.C02 Properties.C04 Properties.C10 Properties.C15 Properties.C17 Properties.C18 Properties.C20.
 Import ListNotations.
 Open Scope N_scope.
@@ -121,6 +126,78 @@ Proof.
   split.
   - unfold nv_msgs. repeat constructor; vm_compute; discriminate.
   - eexists. eexists. split; [vm_compute; reflexivity|]. split; vm_compute; reflexivity.
+Qed.
+
+(* ------------------------------------------------------------------ (A') control-message body parsers *)
+(* [fits p]: |p| + 65535 <= usize::MAX (every slice in memory).  Model conventions: a description / version string
+   is the raw byte slice handed to the WINDOWS-1252 decoder; i8 / i32 values are kept as unsigned bytes. *)
+Theorem C03_ctrl_log_info_no_panic (status : N) (be : bool) (p : Crash.ControlMsgs.bytes) :
+  Crash.ControlMsgsProofs.fits p -> exists apps, Crash.ControlMsgs.parse_log_info status be p = Ok apps.
+Proof. exact (Crash.ControlMsgsProofs.log_info_no_panic status be p). Qed.
+
+Theorem C03_ctrl_sw_version_no_panic (be : bool) (p : Crash.ControlMsgs.bytes) :
+  exists r, Crash.ControlMsgs.parse_sw_version be p = Ok r.
+Proof. exact (Crash.ControlMsgsProofs.sw_version_no_panic be p). Qed.
+
+Theorem C03_ctrl_unregister_context_no_panic (p : Crash.ControlMsgs.bytes) :
+  exists r, Crash.ControlMsgs.parse_unregister_context p = Ok r.
+Proof. exact (Crash.ControlMsgsProofs.unregister_context_no_panic p). Qed.
+
+Theorem C03_ctrl_connection_info_no_panic (p : Crash.ControlMsgs.bytes) :
+  exists r, Crash.ControlMsgs.parse_connection_info p = Ok r.
+Proof. exact (Crash.ControlMsgsProofs.connection_info_no_panic p). Qed.
+
+Theorem C03_ctrl_timezone_no_panic (be : bool) (p : Crash.ControlMsgs.bytes) :
+  exists r, Crash.ControlMsgs.parse_timezone be p = Ok r.
+Proof. exact (Crash.ControlMsgsProofs.timezone_no_panic be p). Qed.
+
+(* parse_payload_int: never a panic; Some exactly when the integer lies inside the payload *)
+Theorem C03_ctrl_parse_int_total (w : N) (be : bool) (p : Crash.ControlMsgs.bytes) (off : N) :
+  off + w <= usizemax -> exists o, Crash.ControlMsgs.parse_payload_int w be p off = Ok o.
+Proof. exact (Crash.ControlMsgsProofs.ppi_total w be p off). Qed.
+
+(* the bookkeeping invariant offset + avail = |payload| is what keeps every access in bounds: one turn of the
+   context loop preserves it (this is the lemma a dropped `avail -= ..` breaks) *)
+Theorem C03_ctrl_context_step_keeps_invariant (hl hts hd be : bool) (p : Crash.ControlMsgs.bytes) (off av : N) :
+  Crash.ControlMsgsProofs.fits p -> Crash.ControlMsgsProofs.Inv p off av ->
+  exists r, Crash.ControlMsgs.ctx_step hl hts hd be p off av = Ok r /\
+            forall c o' a', r = Some (c, o', a') -> Crash.ControlMsgsProofs.Inv p o' a'.
+Proof. intros Hf. exact (Crash.ControlMsgsProofs.ctx_step_ok hl hts hd be p Hf off av). Qed.
+
+(* functional sanity (the model is not degenerate): for every status 3..7, both byte orders, every list of
+   well-formed applications / contexts (4 byte ids, level / trace status present exactly when the status says so,
+   descriptions of 1..65535 bytes or absent, present only for status 7): parse (encode apps) = apps *)
+Theorem C03_ctrl_log_info_decode_encode (status : N) (be : bool) (apps : list Crash.ControlMsgs.app) :
+  3 <= status <= 7 ->
+  N.of_nat (length apps) < 65536 ->
+  Forall (Crash.ControlMsgsProofs.wf_app (Crash.ControlMsgs.has_ll status) (Crash.ControlMsgs.has_ts status)
+            (Crash.ControlMsgs.has_d status)) apps ->
+  Crash.ControlMsgsProofs.fits (Crash.ControlMsgsProofs.enc_log_info (Crash.ControlMsgs.has_d status) be apps) ->
+  Crash.ControlMsgs.parse_log_info status be (Crash.ControlMsgsProofs.enc_log_info (Crash.ControlMsgs.has_d status) be apps)
+  = Ok apps.
+Proof. exact (Crash.ControlMsgsProofs.log_info_decode_encode status be apps). Qed.
+
+Theorem C03_ctrl_sw_version_decode_encode (be : bool) (s tail : Crash.ControlMsgs.bytes) :
+  Crash.ControlMsgs.blen s < 256 ->
+  Crash.ControlMsgs.parse_sw_version be (Crash.ControlMsgsProofs.len4 be (Crash.ControlMsgs.blen s) ++ s ++ tail) = Ok (Some s).
+Proof. exact (Crash.ControlMsgsProofs.sw_version_decode_encode be s tail). Qed.
+
+(* non-vacuity of the round trip: status 7, little endian, one application "APID" with description "ad" and one
+   context "CTID" (level 4, trace status 1, description "cd"); 24 body bytes *)
+Example C03_ctrl_nonvacuous :
+  let c := {| Crash.ControlMsgs.c_id := [67; 84; 73; 68]; Crash.ControlMsgs.c_ll := Some 4;
+              Crash.ControlMsgs.c_ts := Some 1; Crash.ControlMsgs.c_desc := Some [99; 100] |} in
+  let a := {| Crash.ControlMsgs.a_id := [65; 80; 73; 68]; Crash.ControlMsgs.a_ctxs := [c];
+              Crash.ControlMsgs.a_desc := Some [97; 100] |} in
+  Forall (Crash.ControlMsgsProofs.wf_app true true true) [a] /\
+  Crash.ControlMsgsProofs.enc_log_info true false [a] =
+    [1; 0; 65; 80; 73; 68; 1; 0; 67; 84; 73; 68; 4; 1; 2; 0; 99; 100; 2; 0; 97; 100] /\
+  Crash.ControlMsgs.parse_log_info 7 false (Crash.ControlMsgsProofs.enc_log_info true false [a]) = Ok [a].
+Proof.
+  cbv zeta. split; [|split; vm_compute; reflexivity].
+  constructor; [|constructor]. unfold Crash.ControlMsgsProofs.wf_app. cbn.
+  repeat split; try lia; try (eexists; reflexivity).
+  constructor; [|constructor]. unfold Crash.ControlMsgsProofs.wf_ctx. cbn. repeat split; try lia; eexists; reflexivity.
 Qed.
 
 (* ------------------------------------------------------------------ (B) re-exported no-panic theorems *)
@@ -224,3 +301,13 @@ Print Assumptions C03_reexport_file_transfer_alloc_bounded.
 Print Assumptions C03_reexport_remote_no_crash.
 Print Assumptions C03_reexport_reader_no_panic.
 Print Assumptions C03_reexport_volume_chain_no_panic.
+Print Assumptions C03_ctrl_log_info_no_panic.
+Print Assumptions C03_ctrl_sw_version_no_panic.
+Print Assumptions C03_ctrl_unregister_context_no_panic.
+Print Assumptions C03_ctrl_connection_info_no_panic.
+Print Assumptions C03_ctrl_timezone_no_panic.
+Print Assumptions C03_ctrl_parse_int_total.
+Print Assumptions C03_ctrl_context_step_keeps_invariant.
+Print Assumptions C03_ctrl_log_info_decode_encode.
+Print Assumptions C03_ctrl_sw_version_decode_encode.
+Print Assumptions C03_ctrl_nonvacuous.
